@@ -36,6 +36,8 @@ structure EntAux where
   fields : List String
   reqFields : List String
   requires : List (List String)
+  /-- response field showing the call an element was resolved by (`tag`, or a key-only entity's first ID/String field) -/
+  carrier : String := ""
 
 structure Aux where
   cfg : Cfg
@@ -60,7 +62,7 @@ def decodeCfg (j : Json) : Aux :=
       (str r "name", str r "goName", (arr r "keys").map fun k => str k "goField"),
     ents := ents.map fun e =>
       { name := str e "name", fields := strs e "fields", reqFields := strs e "reqFields",
-        requires := (arr e "requires").map fun k => strs k "path" } }
+        requires := (arr e "requires").map fun k => strs k "path", carrier := str e "carrier" } }
 
 partial def jv (j : Json) : JV :=
   match j with
@@ -218,7 +220,8 @@ def elemJson (a : Aux) (reps : List Rep) (i : Nat) (c : Option Ent) : Json × Li
     | some ea =>
       let rep := reps.getD i []
       let base : List (String × Json) := [("__typename", .str e.ty)]
-      let tag := if ea.fields.contains "tag" then [("tag", Json.str e.tag)] else []
+      let tag := if ea.fields.contains "tag" then [("tag", Json.str e.tag)]
+        else if ea.carrier != "" then [(ea.carrier, Json.str e.tag)] else []
       let echo := if ea.fields.contains "reqEcho" then
         [("reqEcho", match e.echo with | some s => Json.str s | none => .null)] else []
       let look (p : List String) : Json := match e.req.lookup p with | some v => kvJson v | none => .null
